@@ -661,6 +661,63 @@ example : ∀ x, x ∈ [Value.str "a".toList false, Value.null] → veq Grass.Va
   simp at hx
   rcases hx with rfl | rfl <;> simp [veq]
 
+/-- the map that holds nothing but the path `k₁ … kₙ, key ↦ v` -/
+def chain : List Value → Value → Value → VPairs
+  | [], key, v => .cons key v .nil
+  | k :: ks, key, v => .cons k (.map (chain ks key v)) .nil
+
+theorem setNested_nil (sw : Sw) (ks : List Value) (key v : Value) :
+    setNested sw ks .nil key v = chain ks key v := by
+  induction ks with
+  | nil => rfl
+  | cons k ks ih => simp [setNested, childMap, Grass.Value.get, Grass.Value.insert, chain, ih]
+
+/-- a path key that is missing, or whose value is not a map, starts a FRESH map: below it the result
+    holds nothing but the rest of the path (nothing of `m` leaks into the new level) -/
+theorem C14_set_fresh_level (sw : Sw) (m : VPairs) (k1 : Value) (ks : List Value) (key v : Value)
+    (h : childMap sw m k1 = .nil) :
+    mapSetF sw (.map m :: (k1 :: ks ++ [key, v])) =
+      .ok (.map (Grass.Value.insert sw.eq m k1 (.map (chain ks key v)))) := by
+  rw [mapSetF_nested sw m (k1 :: ks) key v]
+  simp [setNested, h, setNested_nil]
+
+example : childMap Sw.now (.cons (.str "b".toList false) (.map (.cons (.str "x".toList false) .null .nil)) .nil)
+    (.str "a".toList false) = .nil := by
+  simp [childMap, Grass.Value.get, veq]
+
+theorem indexOf_keys_none (e : Grass.Value.Sw) (m : VPairs) (k : Value) :
+    indexOf e (keys m) k = none ↔ Grass.Value.get e m k = none := by
+  induction m using VPairs.ind with
+  | nil => simp [keys, indexOf, Grass.Value.get]
+  | cons k' v' t ih =>
+    simp only [keys, indexOf, Grass.Value.get]
+    by_cases h : veq e k' k = true
+    · simp [h]
+    · simp [h, ih]
+
+/-- `map-has-key(m, k)` ⇔ some key of `map-keys(m)` is `== k` — whatever the value stored under it
+    (`null`, `false`, `()` … are values like any other) -/
+theorem C14_has_key_index (sw : Sw) (m : VPairs) (k : Value) :
+    ∃ h i, mapHasKeyF sw [.map m, k] = .ok h ∧ mapKeysF [.map m] = .ok (.list (keys m) .comma false) ∧
+      indexF sw [.list (keys m) .comma false, k] = .ok i ∧
+      h = .bool (indexOf sw.eq (keys m) k).isSome ∧ lawHasKeyIndex h i = true := by
+  have hk := indexOf_keys_none sw.eq m k
+  cases hi : indexOf sw.eq (keys m) k with
+  | none =>
+    have hg := hk.mp hi
+    refine ⟨.bool false, .null, ?_, rfl, ?_, rfl, rfl⟩
+    · simp [mapHasKeyF, assertMap, tryMap, hg]
+    · simp [indexF, asList, hi]
+  | some i =>
+    have hg : Grass.Value.get sw.eq m k ≠ none := fun h => by rw [hk.mpr h] at hi; cases hi
+    obtain ⟨v, hv⟩ := Option.ne_none_iff_exists'.mp hg
+    refine ⟨.bool true, natV (i + 1), ?_, rfl, ?_, rfl, rfl⟩
+    · simp [mapHasKeyF, assertMap, tryMap, hv, hasPath]
+    · simp [indexF, asList, hi]
+
+example : mapHasKeyF Sw.now [.map (.cons (.str "a".toList false) .null .nil), .str "a".toList true] = .ok (.bool true) := by
+  simp [mapHasKeyF, assertMap, tryMap, Grass.Value.get, veq, hasPath]
+
 /-- `map-get(map-remove(m, k), k) = null` and the key is gone, when removal is by `==`
     (`sw.eq.removeEq`; before C09's K4 was repaired it was by `not_equals`) -/
 theorem C14_remove_get (sw : Sw) (h : sw.eq.removeEq = true) (m : VPairs) (k : Value) :
